@@ -27,6 +27,7 @@ Hashes64 == 0..63
 Hashes16 == {0, 1, 2, 3, 4, 5, 6, 9, 16, 17, 31, 32, 42, 43, 62, 63}
 (* all values of the low four bits (every bucket for <= 8 buckets, both bloom words), high bits 00 / 11 *)
 Hashes32 == (0..15) \cup (48..63)
+Hashes12 == {0, 1, 2, 3, 5, 8, 9, 17, 32, 42, 43, 63}
 Hashes8  == {0, 1, 2, 5, 8, 17, 42, 63}
 P(nb, mw, sft, u) == [nb |-> nb, mw |-> mw, sft |-> sft, u |-> u]
 (* wild's parameters (one bloom word, shift = log2 C) for 1/2/4 buckets and its own bucket count,
